@@ -127,6 +127,28 @@ VF_HARNESS(elements_index) {
   vf_reach("elements_index");
 }
 
+VF_HARNESS(value_categories) {   // begin()/end()/elements()/home() obtained from a const lvalue and from an rvalue designate what the mutable lvalue's do
+  Spec<D> s = elements_spec(1);
+  auto v = view_of<D>(s, g_mem);
+  L const ne = spec_num_elements(s);
+  L k = vf_nondet_long(); vf_assume(0 <= k && k < ne);
+  L const want = canonical_addr(s, k);
+  auto const& cv = v;
+  vf_assert(&cv.elements()[k] - g_mem == want && &*(cv.elements().begin() + k) - g_mem == want && cv.elements().size() == ne, "const elements(): k-th element, size");
+  vf_assert(&view_of<D>(s, g_mem).elements()[k] - g_mem == want && view_of<D>(s, g_mem).elements().size() == ne, "rvalue elements(): k-th element, size");
+  { auto me = std::move(v).elements(); vf_assert(&*(me.begin() + k) - g_mem == want && me.end() - me.begin() == ne, "std::move(view).elements(): k-th element, distance"); }
+  L i = vf_nondet_long(); vf_assume(0 <= i && i < s.d[0].size);
+  vf_assert(cv.end() - cv.begin() == s.d[0].size && cv.cend() - cv.cbegin() == s.d[0].size, "const begin()/end() and cbegin()/cend() span the leading extent");
+  { auto it = cv.begin() + i; auto mit = v.begin() + i; auto rit = view_of<D>(s, g_mem).begin() + i;
+#if DIM == 1
+    vf_assert(&*it == &*mit && &*rit == &*mit, "const / rvalue begin()+i designate the element the mutable one does");
+#else
+    vf_assert((*it).base() == (*mit).base() && (*it).layout() == (*mit).layout() && (*rit).base() == (*mit).base() && (*rit).layout() == (*mit).layout(), "const / rvalue begin()+i designate the sub-view the mutable one does");
+#endif
+  }
+  vf_reach("value_categories");
+}
+
 VF_HARNESS(elements_movement) {   // the element designated after each kind of movement
   Spec<D> s = elements_spec(1);
   auto v = view_of<D>(s, g_mem);
